@@ -16,12 +16,13 @@ Theorem C06_resume_flushes_queue : forall h c cn n s,
 Proof. exact resume_flushes_queue. Qed.
 
 (* While disconnected, a message addressed to the session is appended to its queue (nothing is
-   written anywhere, nothing is dropped). *)
+   written anywhere, nothing is dropped; enqueue keeps a single chat-refresh notice: "repeated
+   chat-refresh notices may be merged into one"). *)
 Theorem C06_queued_while_disconnected : forall h x t m,
   get_sess h x = Some t -> t.(s_conn) = None ->
   (match m with SJoin _ | SLeave _ => False | _ => True end) ->
   snd (deliver_to_session h x m) = [] /\
-  exists t', get_sess (fst (deliver_to_session h x m)) x = Some t' /\ t'.(s_pending) = t.(s_pending) ++ [m].
+  exists t', get_sess (fst (deliver_to_session h x m)) x = Some t' /\ t'.(s_pending) = enqueue t.(s_pending) m.
 Proof. exact deliver_queued. Qed.
 
 (* The public session id (or anything but a private id) never works as a resume id. *)
@@ -60,8 +61,8 @@ Theorem C06_reachable_q_good : forall h, reachable_q h -> Good h.
 Proof. exact reachable_q_good. Qed.
 
 (* 1. If a session has no connection after a step, what was in its queue before the step is still
-   there in the same order and whatever the step queued comes after it (the model's alphabet has no
-   chat-refresh notice: the merge is the identity). *)
+   there in the same order and whatever the step queued comes after it (enqueue appends, except that a
+   chat-refresh notice is dropped when one is queued already). *)
 Theorem C06_queue_only_grows : forall q h o sid s s',
   Inv h -> get_sess h sid = Some s -> get_sess (fst (stepx q h o)) sid = Some s' -> s_conn s' = None ->
   exists l, s_pending s' = s_pending s ++ l.
@@ -82,7 +83,7 @@ Theorem C06_send_to_disconnected : forall h sid m t,
   get_sess h (target h sid) = Some t -> s_conn t = None ->
   snd (send_session h sid m) = [] /\
   exists t', get_sess (fst (send_session h sid m)) (target h sid) = Some t' /\ s_conn t' = None /\
-             s_pending t' = s_pending t ++ match filtered t m with Some mm => [mm] | None => [] end.
+             s_pending t' = match filtered t m with Some mm => enqueue (s_pending t) mm | None => s_pending t end.
 Proof. exact send_to_disconnected. Qed.
 (* ... a connection: exactly one copy written to it, nothing queued. *)
 Theorem C06_send_to_connected : forall h sid m t c,
@@ -182,6 +183,20 @@ Theorem C06_room_deleted_while_disconnected_repaired :
   option_map s_room (get_sess (fst (qstep (qrun (init [0] false) del_cut) (OHello 2 (HResume (IdPriv 1))))) 1) = Some None.
 Proof. exact room_deleted_while_disconnected_repaired. Qed.
 
+(* "repeated chat-refresh notices may be merged into one": what is queued for a disconnected session is
+   appended, except a chat-refresh notice while one is already in the queue; so the queue holds at most
+   one more than it did, every other message is kept in order. *)
+Theorem C06_enqueue_appends : forall q m, is_chat_refresh m = false -> enqueue q m = q ++ [m].
+Proof. exact enqueue_plain. Qed.
+Theorem C06_enqueue_first_chat_refresh : forall q m, existsb is_chat_refresh q = false -> enqueue q m = q ++ [m].
+Proof. exact enqueue_first. Qed.
+Theorem C06_enqueue_merges_repeated_chat_refresh : forall q m,
+  is_chat_refresh m = true -> existsb is_chat_refresh q = true -> enqueue q m = q.
+Proof. exact enqueue_merged. Qed.
+
+Print Assumptions C06_enqueue_appends.
+Print Assumptions C06_enqueue_first_chat_refresh.
+Print Assumptions C06_enqueue_merges_repeated_chat_refresh.
 Print Assumptions C06_room_deleted_while_disconnected_repaired.
 Print Assumptions C06_resume_flushes_queue.
 Print Assumptions C06_queued_while_disconnected.
